@@ -594,13 +594,13 @@ def normalize (b : Builder) : Builder :=
     exponentBase := if b.exponentBase = 0 then b.mantissaRadix else b.exponentBase
     exponentRadix := if b.exponentRadix = 0 then b.mantissaRadix else b.exponentRadix }
 
-/-- (c) full statement, **not proved here** (left as a `Prop`; checked by the `rb` correspondence stream):
+/-- (c) full statement, proved as `rebuild_build` in `Props/C18Builder.lean`:
 `rebuild (build b) = normalize b` for builders within field ranges; in particular `rebuild (build b) = b` exactly
 when the exponent base and radix are explicit and (a digit-separator flag is set or there is no separator). -/
 def rebuild_build_full : Prop :=
   ∀ b : Builder, b.InRange → rebuild b.build = normalize b
 
-/-- (c) other direction, **not proved here**: `build (rebuild f)` keeps the 31 flag bits, the prefix, suffix and
+/-- (c) other direction, proved as `build_rebuild` in `Props/C18Builder.lean`: `build (rebuild f)` keeps the 31 flag bits, the prefix, suffix and
 mantissa-radix bytes; it clears the reserved bits 18..31, 45..63, 72..87; it clears the separator byte when no
 digit-separator flag is set; it replaces a zero exponent-base / exponent-radix byte by the mantissa radix. -/
 def build_rebuild_full : Prop :=
